@@ -190,6 +190,9 @@ func (w *Worker) runPath(h *HarnessRun, prefix []int64) (alts [][]int64) {
 		m.initPackage(e.pkg)
 		m.call(h.fn, nil)
 	}()
+	if m.fs != nil && len(m.fs.trace) > 0 {
+		m.observes = append(m.observes, "trace "+strings.Join(m.fs.trace, " | "))
+	}
 	if w.ctx.checkSimp && len(w.ctx.pending) > 0 {
 		// validate the simplifier: naive != simplified must be unsat (context-free)
 		for _, p := range w.ctx.pending {
